@@ -59,5 +59,8 @@ func RunSeed(prop string, seed uint64, tier string) *RunResult {
 
 // RunReplay re-executes a replay file exactly.
 func RunReplay(r *Replay) *RunResult {
+	if r.FromSeed {
+		return runWith(r.Property, r.Seed, r.Config, r.Plan, tape.New(tape.Mix(r.Seed, 0x74617065)))
+	}
 	return runWith(r.Property, r.Seed, r.Config, r.Plan, tape.NewReplay(r.Tape))
 }
